@@ -6,7 +6,7 @@
    one the AIR was written for (predicate [Known]) panics in the AIR's constructor. *)
 From VBase Require Import MachInt.
 From VModel Require Import Codec Untrusted.
-From VProofs Require Import CodecTypes CodecTotal UntrustedParse UntrustedTyped UntrustedVerify UntrustedAlloc UntrustedRefuted.
+From VProofs Require Import CodecTypes CodecTotal UntrustedParse UntrustedTyped UntrustedVerify UntrustedAlloc UntrustedRefuted UntrustedBulk.
 Open Scope Z_scope.
 
 (* ================================================================================== stage 1: Proof::from_bytes *)
@@ -20,6 +20,21 @@ Print Assumptions C06_parse_total.
 Theorem C06_parse_inv : forall bs p, is_bytes bs -> parse bs = Ok p -> proof_inv p.
 Proof. exact parse_inv. Qed.
 Print Assumptions C06_parse_inv.
+
+(* SliceReader::check_eor adds position and length WITHOUT an overflow check.  read_Proof_chk = read_Proof with that
+   addition explicit (Panic on overflow) at every bulk read (read_vec / read_slice with a length taken from the input):
+   it is read_Proof on every input a slice can hold, i.e. no bulk read with an untrusted unbounded length is reachable
+   (every such length comes from a field of at most 4 bytes; the vint64 length of the GKR proof is consumed element-wise) *)
+Theorem C06_no_untrusted_bulk_read : forall bs, is_bytes bs -> len bs < 2 ^ 63 -> read_Proof_chk (len bs) bs = read_Proof bs.
+Proof. exact read_Proof_chk_eq. Qed.
+Print Assumptions C06_no_untrusted_bulk_read.
+
+(* ... and the bulk read of a vint64 length is not harmless: tag, 9-byte length 2^64 - 10 at the end of a 10-byte source *)
+Theorem C06_gkr_bulk_read_refuted :
+  read_gkr_bulk 10 [1; 0; 246; 255; 255; 255; 255; 255; 255; 255] = Panic /\
+  read_option (read_vec_of read_u8) [1; 0; 246; 255; 255; 255; 255; 255; 255; 255] = Err Eof.
+Proof. exact gkr_bulk_read_refuted. Qed.
+Print Assumptions C06_gkr_bulk_read_refuted.
 
 (* total capacity requested while parsing <= c * |bytes| + k with c = 25, k = 131680, whatever lengths the bytes claim *)
 Theorem C06_parse_alloc_bounded : forall bs, 0 <= parse_alloc bs <= 25 * len bs + 131680.
